@@ -102,15 +102,21 @@ Definition checknetloc (e : env) (netloc : str) : bool :=
 
 Record split := Split { u_scheme : str; u_netloc : str; u_path : str; u_query : str; u_fragment : str }.
 
+(* if url[:2] == '//': netloc, url = _splitnetloc(url, 2) + the bracket checks; (netloc, rest, checks passed) *)
+Definition split_netloc (e : env) (url1 : str) : str * str * bool :=
+  match url1 with
+  | c1 :: c2 :: r =>
+      if (c1 =? 47) && (c2 =? 47)
+      then let (n, rest) := span_netloc r in (n, rest, brackets_ok e n)
+      else ([], url1, true)
+  | _ => ([], url1, true)
+  end.
+
 (* None = ValueError *)
 Definition urlsplit (e : env) (uri : str) : option split :=
   let url := remove_unsafe (lstrip_c0 uri) in
   let (scheme, url1) := split_scheme url in
-  let '(netloc, url2, ok) :=
-    match url1 with
-    | 47 :: 47 :: r => let (n, rest) := span_netloc r in (n, rest, brackets_ok e n)
-    | _ => ([], url1, true)
-    end in
+  let '(netloc, url2, ok) := split_netloc e url1 in
   if negb ok then None else
   let (url3, fragment) := match cut 35 url2 with Some (a, b) => (a, b) | None => (url2, []) end in
   let (path, query) := match cut 63 url3 with Some (a, b) => (a, b) | None => (url3, []) end in
@@ -139,9 +145,8 @@ Fixpoint digits_acc (s : str) (prev_us : bool) (acc : Z) : option Z :=
 Definition parse_int (s : str) : option Z :=
   let t := strip_space s in
   let (neg, u) := match t with
-                  | 43 :: r => (false, r)
-                  | 45 :: r => (true, r)
-                  | _ => (false, t)
+                  | c :: r => if c =? 43 then (false, r) else if c =? 45 then (true, r) else (false, t)
+                  | [] => (false, t)
                   end in
   match u with
   | c :: r => if is_digit c
@@ -217,8 +222,22 @@ Definition render_ep (ep : str * Z) : str := fst ep ++ 58 :: render_nat (snd ep)
 Definition render_tcp_as (scheme : str) (eps : list (str * Z)) : str :=           (* scheme://h:p,h:p,... *)
   scheme ++ 58 :: 47 :: 47 :: join 44 (map render_ep eps).
 Definition render_tcp (eps : list (str * Z)) : str := render_tcp_as tcp_scheme eps.
+Definition frag_suffix (name : option str) : str := match name with Some n => 35 :: n | None => [] end.
 Definition render_zk (scheme hosts path : str) (name : option str) : str :=       (* scheme://hosts/path[#name] *)
-  scheme ++ 58 :: 47 :: 47 :: hosts ++ path ++ match name with Some n => 35 :: n | None => [] end.
+  scheme ++ 58 :: 47 :: 47 :: hosts ++ path ++ frag_suffix name.
+
+(* ---- predicates used by the theorems ------------------------------------------------------------ *)
+(* a scheme as urlsplit recognises it: an ASCII letter followed by letters, digits, + - . *)
+Definition valid_scheme (s : str) : bool :=
+  match s with c :: _ => is_alpha c && forallb scheme_char s | [] => false end.
+(* printable ASCII other than / ? # [ ] : may appear in a netloc (a zk host list contains , and :) *)
+Definition netloc_char (c : Z) : bool :=
+  (32 <=? c) && (c <? 127) && negb ((c =? 47) || (c =? 63) || (c =? 35) || (c =? 91) || (c =? 93)).
+(* ... and other than , : : may appear in a tcp host *)
+Definition host_char (c : Z) : bool := netloc_char c && negb ((c =? 44) || (c =? 58)).
+(* not removed by urlsplit (tab, CR, LF) and not a fragment / query delimiter *)
+Definition safe_char (c : Z) : bool := negb ((c =? 9) || (c =? 10) || (c =? 13)).
+Definition path_char (c : Z) : bool := safe_char c && negb ((c =? 35) || (c =? 63)).
 
 (* ---- correspondence cases ---------------------------------------------------------------------- *)
 Definition ep_eqb : str * Z -> str * Z -> bool := pair_eqb zlist_eqb Z.eqb.
